@@ -37,7 +37,9 @@ func runC08(rc *RunCtx) {
 	}
 	T := []time.Duration{100 * time.Millisecond, time.Second, 59 * time.Second}[G.Draw(3)]
 	replay := []int{0, 0, 100}[G.Draw(3)]
-	srv := startTCPServer(rc, w, tcpServerOpts{Keys: keys, Replay: replay, Timeout: T})
+	// (a third of the runs with the operator's -verbose flag: the paths that only
+	// format debug messages run too)
+	srv := startTCPServer(rc, w, tcpServerOpts{Keys: keys, Replay: replay, Timeout: T, Debug: G.Draw(3) == 0})
 	tgtIP := net.IPv4(93, 184, 216, 34).To4()
 	type rec struct {
 		key  *Key
